@@ -122,6 +122,7 @@ class Lemma:
     props: list[str] = field(default_factory=list)
     note: str = ""
     uses: list[str] = field(default_factory=list)  # names of (already proved) lemma rules this proof may use
+    prefer_cvc5: bool = False
 
 
 def prove_lemma(lem: Lemma, axioms: Sequence[Any], lib: SpecLib, timeout_ms: int = 20000) -> list[Obligation]:
@@ -130,6 +131,6 @@ def prove_lemma(lem: Lemma, axioms: Sequence[Any], lib: SpecLib, timeout_ms: int
         bank = TermBank()
         hyps, goal = build(bank)
         ob = Obligation(name=f"lemma:{lem.name}/{cname}", hyps=hyps, goal=goal, kind="lemma", bank=bank)
-        discharge(ob, axioms, lib, timeout_ms, lemma_rules=set(lem.uses))
+        discharge(ob, axioms, lib, timeout_ms, lemma_rules=set(lem.uses), prefer_cvc5=lem.prefer_cvc5)
         out.append(ob)
     return out
